@@ -197,6 +197,8 @@ def run_case(case, ctx):
     # narrow / unsigned integer dtypes with values near the top of their range (b + d must not wrap)
     for dt, kk in ((np.int8, 25), (np.uint8, 50), (np.int16, 6000), (np.uint16, 13000)):
         Dk = [[b * kk, dd * kk] for b, dd in D]
+        if max(x for p_ in Dk for x in p_) > np.iinfo(dt).max:
+            continue        # the scaled diagram does not fit this dtype (larger lattices of the thorough tier)
         _, cpk, fck = build(ctx, [np.array(Dk, dtype=dt)], 0)
         compare(ctx, Dk, cpk, fck, 0, "%s array x %d" % (np.dtype(dt), kk), "landscape-value-int-dtype")
     # nested lists; deferred computation (compute=False) triggered by each public accessor, verbose sweep
